@@ -178,7 +178,79 @@ pub fn run(o: &Opts) {
       }
     }
   }
+  wide_documents(o, &mut out, &mut rng);
   out.finish("edit histories of 1-5 steps on error-free corpus sources of all 23 languages: deletion of a node, replacement by another node's text / by multi-byte text / by text that adds lines, insertions at node \
               boundaries, replacements from real pattern matches; steps whose resulting text does not parse cleanly are skipped (counted); after every step the edited document's text must be the spliced text and its \
               pre-order dump (kind, byte range, depth) must equal that of a fresh parse, and searches (by kind — first the kinds the edit introduced — and by a pattern cut from the new tree, after a search before the edit) must find the same nodes in both; String::accept_edit (new text and the six InputEdit fields) is a tie case for the model. non-trivial = every applied step");
+}
+
+
+/// The library is generic in the document's content: the same histories on a document of UTF-16 units (byte offsets
+/// are twice the unit offsets), with replacements from real matches whose length is the same, twice, half of the
+/// replaced text, and with multi-byte text.
+fn wide_documents(o: &Opts, out: &mut Out, rng: &mut Rng) {
+  use crate::widedoc::WideDoc;
+  use ast_grep_core::AstGrep;
+  fn dump_wide(n: &ast_grep_core::Node<WideDoc>, out: &mut Vec<(u16, usize, usize, usize)>, depth: usize) {
+    out.push((n.kind_id(), n.range().start, n.range().end, depth));
+    for c in n.children() {
+      dump_wide(&c, out, depth + 1);
+    }
+  }
+  let sources = [
+    (SupportLang::JavaScript, "log(1)\nlog(2)\nlet a = log(a, 'é日');\n"),
+    (SupportLang::TypeScript, "const x: number = foo(1);\nfoo(x, 2);\n// 😀 comment\nbar(foo(3));\n"),
+    (SupportLang::Python, "print(a)\nx = foo(a, b)\n# é\nprint(foo(1))\n"),
+  ];
+  // (pattern, replacement): same length, twice the length with the old text as prefix, shorter, multi-byte
+  let edits = [("log", "logger"), ("a", "ab"), ("1", "10"), ("foo", "bar"), ("foo", "foofoo"), ("foo($A)", "f($A)"), ("print", "pr"), ("x", "é"), ("foo", "日本"), ("2", "22")];
+  let histories = if o.thorough { 120 } else { 40 };
+  for (lang, src) in sources {
+    for _ in 0..histories {
+      let mut doc = AstGrep::doc(WideDoc::new(src, lang));
+      let mut cur = src.to_string();
+      let mut steps = vec![];
+      for step in 0..(1 + rng.below(4)) {
+        let (pat, rep) = *rng.pick(&edits);
+        let before = cur.clone();
+        let Some(edit) = std::panic::catch_unwind(std::panic::AssertUnwindSafe(|| doc.root().replace(pat, rep))).ok().flatten() else { continue };
+        // expected text: the splice, on the UTF-16 units
+        let mut units: Vec<u16> = before.encode_utf16().collect();
+        units.splice(edit.position / 2..(edit.position + edit.deleted_length) / 2, edit.inserted_text.clone());
+        let want_text = String::from_utf16_lossy(&units);
+        let fresh = AstGrep::doc(WideDoc::new(&want_text, lang));
+        if fresh.root().dfs().any(|n| n.is_error()) {
+          continue;
+        }
+        steps.push(json!({"pattern": pat, "replacement": rep, "at": edit.position}));
+        let r = std::panic::catch_unwind(std::panic::AssertUnwindSafe(|| doc.edit(edit).is_ok()));
+        out.checked();
+        out.count("wide-document:edit");
+        out.nontrivial(&(lang.to_string(), steps.len(), pat, rep, step, want_text.clone()));
+        if !matches!(r, Ok(true)) {
+          out.oracle_fail("", &format!("{lang} (UTF-16 document): AstGrep::edit fails or panics: {steps:?}"), json!({"stream": "c10-wide", "source": src, "steps": steps}));
+          break;
+        }
+        let got_text = doc.root().text().to_string();
+        cur = want_text.clone();
+        if got_text.trim() != want_text.trim() {
+          out.oracle_fail("", &format!("{lang} (UTF-16 document): after replacing {pat:?} by {rep:?} the text is {got_text:?}, the spliced text is {want_text:?}; steps {steps:?}"), json!({"stream": "c10-wide", "source": src, "steps": steps}));
+          break;
+        }
+        let (mut t1, mut t2) = (vec![], vec![]);
+        dump_wide(&doc.root(), &mut t1, 0);
+        dump_wide(&fresh.root(), &mut t2, 0);
+        if t1 != t2 {
+          out.oracle_fail("", &format!("{lang} (UTF-16 document): after {} edit(s) the tree differs from a fresh parse of {want_text:?}; steps {steps:?}", step + 1), json!({"stream": "c10-wide", "source": src, "steps": steps}));
+          break;
+        }
+        let a: Vec<(usize, usize)> = doc.root().find_all(rep).map(|m| (m.range().start, m.range().end)).collect();
+        let b: Vec<(usize, usize)> = fresh.root().find_all(rep).map(|m| (m.range().start, m.range().end)).collect();
+        if a != b {
+          out.oracle_fail("", &format!("{lang} (UTF-16 document): a search for {rep:?} after the edit finds {a:?}, in a fresh parse {b:?}; steps {steps:?}"), json!({"stream": "c10-wide", "source": src, "steps": steps}));
+          break;
+        }
+      }
+    }
+  }
 }
